@@ -236,7 +236,83 @@ func ruleKeyUpdate(c *Ctx, r *Report) {
 				}
 			}
 		}
+		// semantics of the filter: an unprotected ACK (record epoch 0) never passes on a record
+		// number of a protected epoch
+		if cmp != nil {
+			isZero := func(v ssa.Value) bool { k, ok := constInt(v); return ok && k == 0 }
+			w := (&Walk{Fn: hr, Assume: func(v ssa.Value) (Val, bool) {
+				bo, ok := v.(*ssa.BinOp)
+				if !ok || (bo.Op != token.EQL && bo.Op != token.NEQ) {
+					return unknown, false
+				}
+				for _, pr := range [][2]ssa.Value{{bo.X, bo.Y}, {bo.Y, bo.X}} {
+					if !isZero(pr[1]) {
+						continue
+					}
+					if isFieldLoad(pr[0], "pkg/protocol/recordlayer.Header", "Epoch") {
+						return vBool(bo.Op == token.EQL), true // ACK record epoch == 0
+					}
+					if isFieldLoad(stripConv(pr[0]), "pkg/protocol.RecordNumber", "Epoch") {
+						return vBool(bo.Op == token.NEQ), true // acknowledged record epoch != 0
+					}
+				}
+				return unknown, false
+			}}).FromEntry()
+			leak := false
+			nApp := 0
+			for _, b := range hr.Blocks {
+				for _, in := range b.Instrs {
+					call, ok := in.(*ssa.Call)
+					if !ok || calleeName(&call.Call) != "builtin:append" {
+						continue
+					}
+					if !strings.HasSuffix(typeShort(call.Type()), "protocol.RecordNumber") {
+						continue
+					}
+					nApp++
+					if w.Reached[call] {
+						leak = true
+					}
+				}
+			}
+			r.Check(nApp > 0 && !leak, rule6, short(hr)+":unprotected-ack", c.pos(hr.Pos()), "an epoch-0 ACK cannot pass on a record number of a protected epoch", "an unauthenticated epoch-0 ACK record can pass on record numbers of protected epochs: anyone can acknowledge (and thereby commit) a protected KeyUpdate or flight")
+		}
 		r.Check(cmp != nil && !plain, rule6, short(hr), c.pos(hr.Pos()), "acknowledged record numbers are filtered by the epoch of the ACK record itself", "every record number of a received ACK is passed on whatever the epoch of the ACK record: an unauthenticated epoch-0 ACK can acknowledge (and thereby commit) a protected KeyUpdate")
+	}
+	// (6b) every retained generation with matching epoch bits is a candidate: the wire carries only
+	// two epoch bits, so after four updates two retained generations match and both must be tried
+	const rule6b = "read-candidates-complete"
+	if rc := c.need(r, rule6b, "(*internal/state.TrafficKeyState).ReadCandidates"); rc != nil {
+		r.Sites += len(rc.Blocks)
+		loops := naturalLoops(rc)
+		early := ""
+		for _, l := range loops {
+			for b := range l.blocks {
+				if b == l.header {
+					continue
+				}
+				for _, su := range b.Succs {
+					if !l.blocks[su] {
+						early = c.ipos(b.Instrs[len(b.Instrs)-1])
+					}
+				}
+			}
+		}
+		// both the current generation and the retained ones are consulted
+		cur, old := false, false
+		for _, b := range rc.Blocks {
+			for _, in := range b.Instrs {
+				if _, f, _, ok := fieldLoad(valueOfInstr(in)); ok {
+					if f == "readCurrent" {
+						cur = true
+					}
+					if f == "readOld" {
+						old = true
+					}
+				}
+			}
+		}
+		r.Check(len(loops) >= 1 && early == "" && cur && old, rule6b, short(rc), c.pos(rc.Pos()), "the current generation and every retained generation with matching epoch bits are offered", "the search over the retained read generations can stop before all of them were considered (exit at "+early+"), or a generation set is not consulted: with two retained generations sharing the two on-wire epoch bits a record is tried against the wrong one only and dropped")
 	}
 	// TrafficKeyState fields only under its mutex
 	const rule7 = "traffic-keys-locked"
